@@ -972,7 +972,7 @@ INFO = {
 }
 for _v in INFO.values():
     _v['rule'] += (
-        '; swarm dimensions (see probes): crowds of 7-10 waiters, timers up to 2**31, hair-short frames, Fraction / Decimal / non-binary rational steps, a second and an unrelated third processor, hand-over between processors, kill/restart churn (also driven from inside a body), generator look-alikes, guard coroutines whose clean-up code (finally) kills / starts others when the processor drops them, churn of up to 140 kill-start cycles (C08 too), crowds of 36-44 sleepers all re-armed from a watchdog body in every frame (1000+ stale heap entries)')
+        '; swarm dimensions (see probes): crowds of 7-10 waiters, timers up to 2**31, hair-short frames, Fraction / Decimal / non-binary rational steps, a second and an unrelated third processor, hand-over between processors, kill/restart churn (also driven from inside a body), generator look-alikes, guard coroutines whose clean-up code (finally) kills / starts others when the processor drops them, churn of up to 140 kill-start cycles (C08 too), crowds of 36-44 sleepers all re-armed from a watchdog body in every frame (1000+ stale heap entries), a clock that changes its number family (Decimal, then Fraction) while nothing waits')
 PROBES = {
     'C08': ['timer_restart_with_new_wait_same_frame',
             'two_deadlines_one_frame', 'equal_deadlines',
